@@ -36,12 +36,31 @@ def run(rep):
         return impl not in ("err", "bad-op")
     bad_spec, bad_model = V.correspondence(rep, "num", rows, stats, nontrivial=nontrivial)
     gen_rows = [r for r in rows if r[0].split()[1] in ("gcmp", "gar", "gint")]
-    rep.coverage["translator"]["validation_ops"] = len(gen_rows)
-    rep.coverage["translator"]["validation_mismatches"] = sum(1 for r in gen_rows if r[1] != r[2])
+    same_rows = [r for r in rows if r[0].split()[1] == "same"]
+    tr = rep.coverage["translator"]
+    tr["validation_ops"] = len(gen_rows)
+    tr["validation_mismatches"] = sum(1 for r in gen_rows if r[1] != r[2])
+    tr["shared_operand_ops"] = len(same_rows)
+    tr["shared_operand_routes"] = sorted({r[0].split()[2] for r in same_rows})
+    tr["shared_operand_mismatches"] = sum(1 for r in same_rows if r[1] != r[2] or (r[3] != "-" and r[1] != r[3]))
+    # A refused function has no proof about today's code: its tie is the correspondence of the
+    # last-good text with the Go original. That is only acceptable when the operand
+    # distribution covers what a value-level model cannot see by construction — one object used
+    # as both operands (every route) — and the translated-vs-Go and shared-operand columns are
+    # clean. (An unclean column is already a violation through `correspondence`.)
+    if tr.get("refused"):
+        need = {"api", "fn", "var", "let", "param", "self", "arr"}
+        missing = sorted(need - set(tr["shared_operand_routes"]))
+        if missing or not gen_rows:
+            rep.violation("proof-break", {"what": "the translator refused %s and the fallback correspondence does not cover shared operands (routes missing: %s) — the refused code has neither a proof nor an adequate correspondence"
+                                                  % ("; ".join(tr["refused"])[:400], ", ".join(missing) or "-"),
+                                          "theorem_or_correspondence": "generated_eq_model_* (fallback to Model/NumGoGood.lean)"}, no_input=True)
     rep.coverage["exhaustive"] = False
     rep.coverage["rule"] = ("every pair of the boundary grid (see harness/ch_num.go numGrid) under every comparison and arithmetic operator, "
                             "plus random 64-bit patterns; an op is non-trivial when the implementation answered with a value (not a type error); "
-                            "g-ops: the same grid (plus bools) and random patterns through the TRANSLATED Compare/NumericDo/IntegerDo against the Go originals")
+                            "g-ops: the same grid (plus bools) and random patterns through the TRANSLATED Compare/NumericDo/IntegerDo against the Go originals; "
+                            "same-ops: every grid value and random patterns with ONE OBJECT as both operands, under every operator, through the direct Go API "
+                            "(Compare/NumericDo/IntegerDo(v, v)), the builtin called with [v, v], and five script routes (variable twice, let, two parameters, one parameter twice, array element)")
     V.proof_break_resolution(rep, bool(bad_spec))
 
 
